@@ -31,7 +31,7 @@ def _run(mod: Any, cfg: dict, seed: Optional[int] = None, choices: Optional[List
 def kf_matches(kf: dict, fail: Tuple[str, str, str]) -> bool:
     if kf.get('status') != 'open':
         return False
-    if kf['oracle'] != fail[0]:
+    if re.fullmatch(kf['oracle'], fail[0]) is None:
         return False
     return re.search(kf['signature'], fail[1]) is not None
 
@@ -45,15 +45,23 @@ def triage(mod: Any, cfg: dict, choices: List[int], res: Any, kfs: List[dict]) -
     if f2 is None or f2[:2] != fail[:2] or res2.digest != res.digest:
         return {'kind': 'flaky', 'fail': fail, 'again': f2, 'd1': res.digest, 'd2': res2.digest}
     # 2. but-for attribution to an open known finding
-    for kf in kfs:
+    cands = [kf for kf in kfs if kf.get('status') == 'open' and kf['trigger']['feature'] in res.features]
+    for kf in cands:
         if not kf_matches(kf, fail):
             continue
         feat = kf['trigger']['feature']
-        if feat not in res.features:
-            continue
         res3, _ = _run(mod, cfg, choices=choices, forbid=frozenset([feat]))
         if res3.first() is None:
             return {'kind': 'known', 'kf': kf['id'], 'fail': fail}
+    # several known defects in one run: it must pass once all of their
+    # trigger features (and nothing else) are neutralised, and the failure
+    # must match one of them
+    if len(cands) > 1 and any(kf_matches(kf, fail) for kf in cands):
+        feats = frozenset(kf['trigger']['feature'] for kf in cands)
+        res3, _ = _run(mod, cfg, choices=choices, forbid=feats)
+        if res3.first() is None:
+            first = [kf for kf in cands if kf_matches(kf, fail)][0]
+            return {'kind': 'known', 'kf': first['id'], 'fail': fail}
     return {'kind': 'violation', 'fail': fail}
 
 
@@ -67,11 +75,10 @@ def same_failure(mod: Any, cfg: dict, choices: List[int], want: Tuple[str, str],
     f = res.first()
     if f is None or (f[0], f[1]) != want:
         return None
-    for kf in kfs:
-        if kf_matches(kf, f) and kf['trigger']['feature'] in res.features:
-            r3, _ = _run(mod, cfg, choices=choices, forbid=frozenset([kf['trigger']['feature']]))
-            if r3.first() is None:
-                return None
+    if kfs:
+        tr = triage(mod, cfg, tape.choices, res, kfs)
+        if tr['kind'] != 'violation':
+            return None
     res._choices = tape.choices      # type: ignore[attr-defined]
     return res
 
